@@ -10,6 +10,7 @@ import QmcModel.Generated.PureFns
 import QmcProofs.PureFnsAgree.Prelude
 import QmcModel.Autocorr
 import Mathlib.Algebra.Order.Field.Rat
+import Mathlib.Tactic.NormNum
 
 namespace Qmc.PureFnsAgree
 
@@ -22,11 +23,16 @@ theorem autocorr_mean_agree (xs : List Rat) (n : Nat) : mean xs = Gen.autocorr_m
 theorem autocorr_center_agree (xs : List Rat) : center xs = xs.map fun x => Gen.autocorr_center x (mean xs) := rfl
 
 /-- the model divides products of centred entries by `Σ y²` where the code divides every entry by
-`norm = sqrt(Σ y²)` first: the same number for ANY function `sqrt` with `sqrt(x)² = x` on `x ≥ 0` -/
-theorem autocorr_norm_agree (sqrt : Rat → Rat) (hs : ∀ x, 0 ≤ x → sqrt x * sqrt x = x) (a b ss : Rat) (h : 0 ≤ ss) :
+`norm = sqrt(Σ y²)` first: the same number whenever `sqrt` squares back to `Σ y²` AT THAT ARGUMENT (real `sqrt` does;
+over `Rat` no function does so at every argument, hence the pointwise hypothesis; f64 rounding of `sqrt` is not modelled) -/
+theorem autocorr_norm_agree (sqrt : Rat → Rat) (a b ss : Rat) (hs : sqrt ss * sqrt ss = ss) :
     (a / Gen.autocorr_norm sqrt ss) * (b / Gen.autocorr_norm sqrt ss) = a * b / ss := by
   unfold Gen.autocorr_norm
-  rw [div_mul_div_comm, hs ss h]
+  rw [div_mul_div_comm, hs]
+
+/-- the hypothesis is satisfiable: `Σ y² = 4`, `sqrt 4 = 2` -/
+example : (3 / Gen.autocorr_norm (fun _ => 2) 4) * (5 / Gen.autocorr_norm (fun _ => 2) 4) = 3 * 5 / (4 : Rat) :=
+  autocorr_norm_agree (fun _ => 2) 3 5 4 (by norm_num)
 
 theorem dot_div (c : Rat) : ∀ a b : List Rat, dot (a.map (· / c)) (b.map (· / c)) = dot a b / (c * c)
   | [], _ => by simp [dot]
@@ -40,15 +46,22 @@ theorem rot_map (f : Rat → Rat) (y : List Rat) (t : Nat) : rot (y.map f) t = (
   simp [rot, List.map_drop, List.map_take]
 
 /-- Autocorr.lean `colAutocorr` (products of centred entries over `Σ y²`, no square root) is the circular product sum of
-the column the code builds: centred, every entry divided by the translated `norm` — for any `sqrt` with `sqrt(x)² = x` -/
-theorem autocorr_norm_agree_colAutocorr (sqrt : Rat → Rat) (hs : ∀ x, 0 ≤ x → sqrt x * sqrt x = x) (xs : List Rat) (t : Nat)
-    (hpos : 0 ≤ dot (center xs) (center xs)) :
+the column the code builds: centred, every entry divided by the translated `norm` — for any `sqrt` that squares back to
+`Σ y²` at that argument -/
+theorem autocorr_norm_agree_colAutocorr (sqrt : Rat → Rat) (xs : List Rat) (t : Nat)
+    (hs : sqrt (dot (center xs) (center xs)) * sqrt (dot (center xs) (center xs)) = dot (center xs) (center xs)) :
     colAutocorr xs t =
       dot ((center xs).map (· / Gen.autocorr_norm sqrt (dot (center xs) (center xs))))
           (rot ((center xs).map (· / Gen.autocorr_norm sqrt (dot (center xs) (center xs)))) t) := by
   rw [rot_map, dot_div]
   unfold Gen.autocorr_norm colAutocorr
-  rw [hs _ hpos]
+  rw [hs]
+
+/-- satisfiable on a non-constant column: `[3, -3, 3, -3]` has mean 0 and `Σ y² = 36 = 6²` -/
+example : colAutocorr [3, -3, 3, -3] 1 =
+    dot ((center [3, -3, 3, -3]).map (· / Gen.autocorr_norm (fun _ => 6) (dot (center [3, -3, 3, -3]) (center [3, -3, 3, -3]))))
+        (rot ((center [3, -3, 3, -3]).map (· / Gen.autocorr_norm (fun _ => 6) (dot (center [3, -3, 3, -3]) (center [3, -3, 3, -3])))) 1) :=
+  autocorr_norm_agree_colAutocorr (fun _ => 6) [3, -3, 3, -3] 1 (by norm_num [dot, center, mean])
 
 /-- the final division: the unnormalised inverse FFT returns `tmax ·` (circular product sum) per column, so the code's
 `lag_sum / (n · tmax)` is the model's average over the `n` observables (Autocorr.lean `autocorr`: `(Σ_i colAutocorr) / n`) -/
